@@ -154,6 +154,11 @@ pub struct Case {
     pub label: &'static str,
 }
 
+type StatePair = (h263_rs::H263State, h263_rs::H263State, bool);
+thread_local! {
+    static WITH_HISTORY: std::cell::RefCell<[Option<StatePair>; 4]> = const { std::cell::RefCell::new([None, None, None, None]) };
+}
+
 fn check_case(rep: &Report, c: &Case) {
     let sorenson = matches!(c.h, H::S(_));
     let mut w = BitWriter::new();
@@ -193,6 +198,55 @@ fn check_case(rep: &Report, c: &Case) {
         }
         Ok(x) => x,
     };
+    // the same header through H263State::parse_picture with no previous header given, on a fresh
+    // decoder and on one that has decoded a picture: parsing a header on its own must not depend
+    // on what the decoder has seen
+    if c.prev.is_none() {
+        let via_state = WITH_HISTORY.with(|cell| {
+            let mut slot = cell.borrow_mut();
+            let key = (sorenson as usize) * 2 + c.scal as usize;
+            if slot[key].is_none() {
+                let mut fresh = h263_rs::H263State::new(opts);
+                let mut used = h263_rs::H263State::new(opts);
+                let hdr = if sorenson { Hdr::S(SHdr { version: 0, tr: 1, size: SSize::Custom8(32, 16), ptype: 0, deblock: false, q: 5, pei: vec![] }) } else { Hdr::Std(StdHdr::custom(32, 16, false, 1, 5)) };
+                let pic = Pic { hdr: hdr.clone(), mbs: vec![Mb::intra_flat(80), Mb::intra_flat(90)] };
+                let mut wr = BitWriter::new();
+                match &pic.hdr {
+                    Hdr::Std(h) => h.put(&mut wr, c.scal, 0),
+                    Hdr::S(h) => h.put(&mut wr),
+                }
+                for mb in &pic.mbs {
+                    put_mb(&mut wr, true, mb);
+                }
+                let ok = decode_bytes(&mut used, &wr.bytes).is_ok();
+                let _ = &mut fresh;
+                slot[key] = Some((fresh, used, ok));
+            }
+            let (fresh, used, ok) = slot[key].as_ref().unwrap();
+            let run = |st: &h263_rs::H263State| {
+                catch(|| {
+                    let mut rd = H263Reader::from_source(&bytes[..]);
+                    let _ = rd.read_bits::<u32>(c.phase);
+                    st.parse_picture(&mut rd, None).map(|o| o.map(|p| observe(&p))).map_err(|e| format!("{e:?}"))
+                })
+            };
+            (run(fresh), run(used), *ok)
+        });
+        let direct = res.as_ref().map(|o| o.clone()).map_err(|e| format!("{e:?}"));
+        let (f, u, ok) = via_state;
+        if ok {
+            for (which, got) in [("fresh", f), ("with one decoded picture", u)] {
+                match got {
+                    Err(p) => rep.violation(&panic_sig(&p), format!("[{}] H263State::parse_picture panicked: {p}", c.label), replay.clone()),
+                    Ok(g) => {
+                        if g != direct {
+                            rep.violation_lazy(&format!("C06/parse-through-state-differs[{}]", if which == "fresh" { "fresh" } else { "after-history" }), || (format!("[{}] H263State::parse_picture(reader, None) on a decoder {which} gives {:?}, parser::decode_picture(reader, options, None) gives {:?}", c.label, g.as_ref().map(|o| o.as_ref().map(|e| e.tr)), direct.as_ref().map(|o| o.as_ref().map(|e| e.tr))), replay.clone()));
+                        }
+                    }
+                }
+            }
+        }
+    }
     let mode = if sorenson { "sorenson" } else if matches!(&c.h, H::Std(h) if h.plus.is_some()) { "plusptype" } else { "ptype" };
     // beyond the stuffing window the header may be missed, but never mis-parsed
     let window_exceeded = c.stuff > realign;
@@ -789,7 +843,7 @@ pub fn run(tier: Tier) -> Report {
         rep.extra("size_change_graph", json!({"states": ex.nodes.len(), "transitions": ex.transitions, "fixpoint": ex.fixpoint, "max_depth": ex.max_depth}));
     }
     rep.set_rule(
-        "header descriptions -> bits (independent writer) -> parser::decode_picture, compared field by field with the description, followed by a 32-bit sentinel that must be the next thing read: Sorenson: every version, TR, size code, all 256x256 8-bit sizes, all 16-bit widths/heights at 3 fixed partners, type x deblock x quantizer, PEI bytes; H.263: each field of PTYPE / PLUSPTYPE (UFEP, OPPTYPE incl. all 2^10 mode patterns, MPPTYPE, CPM, CPFMT incl. all 512x512 indications and all EPAR, CPCFC/ETR, UUI, SSS, ELNUM/RLNUM, RPSMF, TRPI/TRP, BCI, TRB/DBQUANT, PEI) over its whole range on three base headers, all field pairs over boundary sets, a full cross of reduced domains, inheritance from every subset of OPPTYPE options, all 8 bit phases x stuffing lengths; non-trivial = H.263 headers",
+        "header descriptions -> bits (independent writer) -> parser::decode_picture, compared field by field with the description, followed by a 32-bit sentinel that must be the next thing read; every header is also parsed through H263State::parse_picture(.., None) on a fresh decoder and on one with a decoded picture, which must agree with the direct parse: Sorenson: every version, TR, size code, all 256x256 8-bit sizes, all 16-bit widths/heights at 3 fixed partners, type x deblock x quantizer, PEI bytes; H.263: each field of PTYPE / PLUSPTYPE (UFEP, OPPTYPE incl. all 2^10 mode patterns, MPPTYPE, CPM, CPFMT incl. all 512x512 indications and all EPAR, CPCFC/ETR, UUI, SSS, ELNUM/RLNUM, RPSMF, TRPI/TRP, BCI, TRB/DBQUANT, PEI) over its whole range on three base headers, all field pairs over boundary sets, a full cross of reduced domains, inheritance from every subset of OPPTYPE options, all 8 bit phases x stuffing lengths; non-trivial = H.263 headers",
     );
     rep.sample(json!({"kind": "plusptype-rich", "fields": format!("{:?}", rich_base())}));
     rep.sample(json!({"kind": "sorenson", "fields": "version 1, TR 200, 16-bit size 320x200, disposable, deblocking on, q 31, PEI [1,2] at bit phase 5 with 3 stuffing bits"}));
